@@ -22,7 +22,7 @@ use crate::buffer::LanceBuffer;
 use crate::data::{BlockInfo, DataBlock, VariableWidthBlock};
 use crate::encodings::logical::primitive::fullzip::{PerValueCompressor, PerValueDataBlock};
 use crate::encodings::logical::primitive::miniblock::{
-    MiniBlockChunk, MiniBlockCompressed, MiniBlockCompressor,
+    MiniBlockChunk, MiniBlockCompressed, MiniBlockCompressor, MAX_MINIBLOCK_BYTES,
 };
 use crate::format::pb21::compressive_encoding::Compression;
 use crate::format::pb21::CompressiveEncoding;
@@ -159,6 +159,12 @@ fn search_next_offset_idx<N: OffsetSizeTrait>(offsets: &[N], last_offset_idx: us
             num_values = new_num_values;
             new_num_values *= 2;
         } else {
+            // The doubled chunk overshoots the aim.  Use it only if it still fits into a mini-block
+            // (with room for padding); otherwise keep the last count that did fit.  A non-final
+            // chunk must hold 2^n values with n >= 1, so never fall back to a single value.
+            if new_size.to_i64().unwrap() > MAX_MINIBLOCK_BYTES as i64 - 8 && num_values >= 2 {
+                return last_offset_idx + num_values;
+            }
             break;
         }
     }
